@@ -136,6 +136,7 @@ func checkLexer(c *checkCtx, prop string) {
 		o.modes = true
 		o.ng = true
 		o.accum = true
+		o.epsRules = true // "every accepted specification": also rules that can match the empty string
 		c.cov.Rule = "rule sets of all kinds; the emitted mode arrays must be structurally well-formed (sorted disjoint ranges, targets and mode indices in range) and pass the product exploration against the powerset of the NFA they were built from (dumped by the hook); parser arrays must decode to exactly the dumped actions/gotos; the row-compression encoder is compared with its proved Gallina model on adversarial rows"
 	case "C11":
 		o.modes = true
